@@ -105,7 +105,8 @@ class Build:
         ds = [d for d in glob.glob(os.path.join(BUILD_ROOT, "*")) if os.path.isdir(d)]
         ds.sort(key=lambda d: os.path.getmtime(d), reverse=True)
         for d in ds[3:]:
-            if os.path.basename(d) != self.hash:
+            # (builds used within the last half hour may belong to a check running beside this one)
+            if os.path.basename(d) != self.hash and time.time() - os.path.getmtime(d) > 1800:
                 shutil.rmtree(d, ignore_errors=True)
         os.utime(self.dir, None)
 
